@@ -81,7 +81,9 @@ def expr_uses_static(e):
     return e[0] == "t" or (e[0] in "+-*" and (expr_uses_static(e[1]) or expr_uses_static(e[2])))
 
 
-def stmt_cb(s):
+def stmt_cb(s, k=0):
+    if s[0] == "C":
+        return 'int r%d = self.%s(%s); println("%s", r%d);' % (k, s[2], expr_cb(s[3]), s[1], k)
     if s[0] == "F":
         return "self.%s = %s;" % (s[1], expr_cb(s[2]))
     if s[0] == "S":
@@ -90,6 +92,8 @@ def stmt_cb(s):
 
 
 def stmt_tok(s):
+    if s[0] == "C":
+        return ["C", s[1], s[2]] + expr_tok(s[3])
     if s[0] in ("F", "S"):
         return [s[0], s[1]] + expr_tok(s[2])
     out = ["P", s[1], str(len(s[2]))]
@@ -100,6 +104,8 @@ def stmt_tok(s):
 
 def method_uses_statics(m):
     for s in m["body"]:
+        if s[0] == "C" and expr_uses_static(s[3]):
+            return True
         if s[0] == "S":
             return True
         if s[0] == "F" and expr_uses_static(s[2]):
@@ -121,7 +127,7 @@ def impl_cb(d):
     for n, z in d["statics"]:
         out.append("  static int %s = %d;" % (n, z))
     for m in d["methods"]:
-        body = " ".join(stmt_cb(s) for s in m["body"])
+        body = " ".join(stmt_cb(s, k) for k, s in enumerate(m["body"]))
         out.append("  int %s(int d) { %s return %s; }" % (m["name"], body, expr_cb(m["ret"])))
     out.append("};")
     return "\n".join(out)
@@ -323,8 +329,6 @@ def gen_method(rng, name, iface, t, statics, use_statics):
         obs = [["f", f] for f in fields] + [["t", s] for s in st] + ([["s"]] if prim else []) + [["a"]]
         body.insert(rng.randint(0, len(body)) if rng.random() < 0.3 else len(body), ["P", tag, obs])
     ret = gen_expr(rng, fields, st, prim)
-    if prim and ret == ["s"]:
-        ret = e_add(["s"], e_c(0))          # avoid C12-return-self-primitive
     return {"name": name, "body": body, "ret": ret}
 
 
@@ -359,12 +363,48 @@ def gen_world(rng, small=False):
             statics = [(s, rng.randint(0, 50)) for s in STATICS if rng.random() < 0.6]
             meths = []
             for m in ms:
-                use = bool(statics) and t["kind"] != "prim" and rng.random() < 0.65
+                use = bool(statics) and rng.random() < 0.65
                 meths.append(gen_method(rng, m, iname, t, statics, use))
             rng.shuffle(meths)
             impls.append({"iface": iname, "type": t["name"], "statics": statics, "methods": meths})
+    add_nested_calls(rng, types, impls)
     rng.shuffle(impls)
     return ifaces, types, impls
+
+
+def writes_self(m):
+    return any(s[0] == "F" for s in m["body"])
+
+
+def has_calls(m):
+    return any(s[0] == "C" for s in m["body"])
+
+
+def add_nested_calls(rng, types, impls):
+    """some methods call  self.m(e)  on call-free methods of the same type (any of its impl blocks: the callee
+    runs under ITS block's statics, the caller's are back afterwards). Avoided (C12-nested-self-writes-lost):
+    callees that assign to self fields."""
+    for t in types:
+        blocks = [d for d in impls if d["type"] == t["name"]]
+        meths = [(d, m) for d in blocks for m in d["methods"]]
+        callers = set()
+        callees = set()
+        for d, m in meths:
+            if id(m) in callees or rng.random() > 0.35:
+                continue
+            cands = [(dd, mm) for dd, mm in meths if mm is not m and id(mm) not in callers and not writes_self(mm) and not has_calls(mm)]
+            if not cands:
+                continue
+            prim = t["kind"] == "prim"
+            fields = [] if prim else t["fields"]
+            st = [n for n, _ in d["statics"]]
+            for _ in range(rng.randint(1, 2)):
+                dd, mm = rng.choice(cands)
+                tag = "%s.%s.%s>%s" % (d["iface"], t["name"], m["name"], mm["name"])
+                m["body"].insert(rng.randint(0, len(m["body"])),
+                                 ["C", tag, mm["name"], gen_expr(rng, fields, st if method_uses_statics(m) or rng.random() < 0.5 else [], prim, 1)])
+                callees.add(id(mm))
+            callers.add(id(m))
 
 
 class Sim:
@@ -389,8 +429,8 @@ class Sim:
         return self.conc[x] if x in self.conc else self.iv[x][1]
 
     def methods_struct_recv(self, t):
-        """methods callable on a struct-typed receiver without tripping #34: no statics used"""
-        return [m["name"] for d in self.by_type.get(t, []) for m in d["methods"] if not method_uses_statics(m)]
+        """every method any impl block gives the type (statics are reachable through every receiver since ffeef7f)"""
+        return [m["name"] for d in self.by_type.get(t, []) for m in d["methods"]]
 
     def methods_iface_recv(self, i, t):
         return [m["name"] for m in self.impl[(i, t)]["methods"] if m["name"] in self.ifaces[i]]
@@ -404,8 +444,7 @@ def gen_program(rng, nops, small=False, malformed=None):
     for t in types:
         for c in range(rng.randint(1, 2)):
             nm = "x%s%d" % (t["name"], c)
-            # primitives stay >= 0: `self + k` with a negative primitive self crashes (C12-negative-prim-self-arith)
-            init = rng.randint(0, 40) if t["kind"] == "prim" else [rng.randint(-20, 20) for _ in t["fields"]]
+            init = rng.randint(-40, 40) if t["kind"] == "prim" else [rng.randint(-20, 20) for _ in t["fields"]]
             vars_.append({"name": nm, "type": t["name"], "kind": "conc", "init": init})
             sim.conc[nm] = t["name"]
         if t["kind"] == "struct" and rng.random() < 0.5:
@@ -512,7 +551,7 @@ def gen_program(rng, nops, small=False, malformed=None):
             x = rng.choice(list(sim.conc))
             t = sim.types[sim.conc[x]]
             f = "-" if t["kind"] == "prim" else rng.choice(t["fields"])
-            ops.append(["s", x, f, rng.randint(0, 40) if t["kind"] == "prim" else rng.randint(-30, 30)])
+            ops.append(["s", x, f, rng.randint(-40, 40) if t["kind"] == "prim" else rng.randint(-30, 30)])
         elif r < 0.93 and sim.arr:
             a = rng.choice(list(sim.arr))
             t, ln = sim.arr[a]
@@ -708,7 +747,7 @@ def spec_run(p):
     """The property's own reading, independent of the Coq model: dispatch on (interface, dynamic type),
     self = receiver, writes visible afterwards, one statics cell per (interface, type, name) for the whole
     run, no-impl rejected. Returns (lines, class). Differs from the pinned code exactly where the known
-    findings are (statics reachable through every receiver, `return self` returns self)."""
+    findings are (a method outside the interface is rejected, nested self-call writes stay visible)."""
     types = {t["name"]: t for t in p["types"]}
     impl = {}
     seen = []
@@ -767,7 +806,12 @@ def spec_run(p):
         dd, mm = find_method(cell["t"], m, via)
         pair = (dd["iface"], dd["type"])
         for s in mm["body"]:
-            if s[0] == "F":
+            if s[0] == "C":
+                inner = {"k": "conc", "t": cell["t"], "p": cell["p"]}     # the same object: writes stay visible
+                r = call(inner, s[2], ev(s[3], cell, d, pair))
+                cell["p"] = inner["p"]
+                out.append("%s %d" % (s[1], r))
+            elif s[0] == "F":
                 cell["p"][s[1]] = ev(s[2], cell, d, pair)
             elif s[0] == "S":
                 statics[(pair[0], pair[1], s[1])] = ev(s[2], cell, d, pair)
